@@ -141,5 +141,10 @@ func validateConstraints(i interface{}) error {
 		return fmt.Errorf("minimum bet fee must be positive: %d", v.Fee.Int64())
 	}
 
+	// the fee is taken from the wagered amount, which is only known to reach the minimum amount
+	if v.Fee.GTE(v.MinAmount) {
+		return fmt.Errorf("bet fee must be lower than the minimum bet amount: %s >= %s", v.Fee, v.MinAmount)
+	}
+
 	return nil
 }
